@@ -31,6 +31,8 @@ def replay(d):
 def check(run):
     run.level = "other"
     PC.deductive(run)
+    from checks import crosscheck
+    crosscheck.bounded_part(run, ["contracts.balancing"], ["merge_stats"])
     run.assume("worker scheduling: joblib process pools are modelled as order-preserving maps; real interleavings are only sampled (n_jobs 1, 2, 4)")
     rnd = random.Random(run.seed)
     n = 14 if run.tier == "quick" else 120
